@@ -433,8 +433,19 @@ func (e *Executor) startExecution(ctx context.Context, t *ast.Task, execute func
 	e.executionHashesMutex.Lock()
 
 	if otherExecutionCtx, ok := e.executionHashes[h]; ok {
+		// Waiting for an execution that is itself waiting for one of ours (a
+		// cycle entered at two points at once) would never end either
+		crossWait := e.executionWaitsForAny(h, chain)
+		if !crossWait {
+			e.setExecutionWaits(chain, h, 1)
+			defer func() {
+				e.executionHashesMutex.Lock()
+				e.setExecutionWaits(chain, h, -1)
+				e.executionHashesMutex.Unlock()
+			}()
+		}
 		e.executionHashesMutex.Unlock()
-		if slices.Contains(chain, h) {
+		if crossWait || slices.Contains(chain, h) {
 			return &errors.TaskCalledTooManyTimesError{
 				TaskName:        t.Task,
 				MaximumTaskCall: MaximumTaskCall,
@@ -471,6 +482,46 @@ func (e *Executor) startExecution(ctx context.Context, t *ast.Task, execute func
 // executionChainKey is the context key of the hashes of the deduplicated
 // executions a call is nested in.
 type executionChainKey struct{}
+
+// setExecutionWaits records (n = 1) or forgets (n = -1) that none of the
+// executions in chain can finish before execution h has. The caller holds
+// executionHashesMutex.
+func (e *Executor) setExecutionWaits(chain []string, h string, n int) {
+	if e.executionWaits == nil {
+		e.executionWaits = map[string]map[string]int{}
+	}
+	for _, c := range chain {
+		if e.executionWaits[c] == nil {
+			e.executionWaits[c] = map[string]int{}
+		}
+		if e.executionWaits[c][h] += n; e.executionWaits[c][h] <= 0 {
+			delete(e.executionWaits[c], h)
+		}
+	}
+}
+
+// executionWaitsForAny reports whether execution h is waiting, directly or
+// through other executions, for one of the executions in chain. The caller
+// holds executionHashesMutex.
+func (e *Executor) executionWaitsForAny(h string, chain []string) bool {
+	seen := map[string]bool{}
+	todo := []string{h}
+	for len(todo) > 0 {
+		cur := todo[len(todo)-1]
+		todo = todo[:len(todo)-1]
+		if seen[cur] {
+			continue
+		}
+		seen[cur] = true
+		for next := range e.executionWaits[cur] {
+			if slices.Contains(chain, next) {
+				return true
+			}
+			todo = append(todo, next)
+		}
+	}
+	return false
+}
 
 // FindMatchingTasks returns a list of tasks that match the given call. A task
 // matches a call if its name is equal to the call's task name or if it matches
